@@ -1128,7 +1128,7 @@ theorem content_del (ops : List Op) (hv : ValidFrom [] ops) (k : Key) (t : Int) 
       simp [hg1]
 
 theorem filesOK_del (ops : List Op) (hv : ValidFrom [] ops)
-    (hcap : ∀ k, (blocksOfKey ops k).length ≤ 20) : FilesOK (runsOf' ops) := by
+    (hcap : ∀ k, (blocksOfKey ops k).length ≤ 20) : FilesOK (some 20) (runsOf' ops) := by
   have hch : ∀ f k, ChainOK (ptsOf f k ops) := fun f k => by
     have := valid_chain f k ops [] hv trivial
     simpa using this
@@ -1214,6 +1214,8 @@ theorem filesOK_del (ops : List Op) (hv : ValidFrom [] ops)
         exact fresh_mkBT tombs c1 c2 c3
   · intro k
     rw [blocksFor_readers]
+    intro m hm
+    cases hm
     refine Nat.le_trans ?_ (hcap k)
     unfold blocksOfKey
     generalize fileIds ops = ids
@@ -1231,13 +1233,14 @@ theorem modelCompact_ok' (ops : List Op) (hv : ValidFrom [] ops)
     (files : List OutFile) (h : modelCompact ops fast size = Obs.out files) :
     judge ops false size files = none := by
   unfold modelCompact at h
-  cases hc : compactSeq ⟨size, fast⟩ ((readers ops).map RFile.runs) with
+  cases hc : compactSeq { size := size, fast := fast } ((readers ops).map RFile.runs) with
   | error e => rw [hc] at h; cases h
   | ok seq =>
     rw [hc] at h
     simp only [Obs.out.injEq] at h
     subst h
-    have ro := compactSeq_spec ⟨size, fast⟩ hs (runsOf' ops) (filesOK_del ops hv hcap) seq hc
+    have ro := compactSeq_spec { size := size, fast := fast } (some 20) (stableLaw size fast) hs (runsOf' ops)
+      (filesOK_del ops hv hcap) seq hc
     obtain ⟨sf1, sf2⟩ := splitFiles_spec limits (fun _ => 0) (seqLen seq) seq (by simp [seqLen])
     apply judge_none ops false size _ sf2 (by rw [sf1]; exact ro.sorted)
       (fun k => blocksFor (runsOf' ops) k) (fun k => restAt (blocksFor (runsOf' ops) k))
